@@ -24,6 +24,9 @@ def plan(tier, seed, prop_no):
     specs = []
     for i in range(n):
         spec = matprob.gen_spec(rng, tier, hermitian=True)
+        if rng.random() < 0.08:
+            spec["atol_boundary"] = int(rng.choice([20, 30]))
+            spec = matprob.normalise(spec, tier == "thorough")
         spec["shuffle"] = int(rng.integers(0, 2**31))
         specs.append(spec)
     # exact (sympy) cases are the slow ones: spread them evenly
@@ -44,6 +47,7 @@ def run(spec, oracle):
         "exact_cases" if p.exact else "float_cases": 1,
         "tiny_units_with_atol": int(bool(p.notes.get("units"))),
         "user_atol_option": int(bool(p.notes.get("user_atol"))),
+        "levels_exactly_atol_apart": int(bool(p.notes.get("atol_boundary"))),
         "degenerate_kept_pairs": int(any(p.E[i] == p.E[j] for i in range(p.N) for j in range(i))),
     }
     nontrivial = oracles.perturbation_couples_eliminated(p) and spec["max_total"] >= 2
@@ -57,7 +61,7 @@ def finalize_common(c, tier, evaluations, distinct):
     need = 40 if tier == "quick" else 300
     if distinct < need:
         reasons.append(f"only {distinct} distinct non-trivial cases (< {need})")
-    for k in ("vtype_dense", "vtype_sparse", "vtype_sympy", "sel_mask", "sel_fd_some", "sel_none", "blocks_3", "params_2", "sylvester_dense", "sylvester_sparse", "sylvester_sympy", "tiny_units_with_atol", "user_atol_option"):
+    for k in ("vtype_dense", "vtype_sparse", "vtype_sympy", "sel_mask", "sel_fd_some", "sel_none", "blocks_3", "params_2", "sylvester_dense", "sylvester_sparse", "sylvester_sympy", "tiny_units_with_atol", "user_atol_option", "levels_exactly_atol_apart"):
         if c.get(k, 0) < 3:
             reasons.append(f"class/monitor {k} observed only {c.get(k, 0)} times")
     return reasons
